@@ -777,10 +777,20 @@ theorem caddyfile_bad_weights_rejected (dur : Bytes → Option Int) (l fuel : Na
     | nil => rfl
     | cons a rest => simp [h]
 
-/-- the argument loops of the dispenser model (`RemainingArgs`, the first loop of `NextSegment`) never
-    run out of the fuel they are given ("number of tokens + 2"): more fuel gives the same result, from
-    any cursor position. (The block loops and the nesting of fallbacks report exhausted fuel as the
-    explicit outcome `fuel`; no case of the differential stream produces it.) -/
+/-- **the Caddyfile model never runs out of fuel** — neither the loops over the tokens (every
+    iteration moves the dispenser's cursor forward) nor the nesting of fallback policies (every nested
+    segment is shorter than the one it sits in): the outcome `fuel` does not occur, so an `err` of the
+    model is an error the code returns and a finished loop is a loop the code finished -/
+theorem caddyfile_lb_policy_never_runs_out_of_fuel (dur : Bytes → Option Int) (toks : List Tok) :
+    parseLbPolicy dur toks ≠ .fuel :=
+  parseLbPolicy_fuel dur toks
+
+theorem caddyfile_reverse_proxy_never_runs_out_of_fuel (dur : Bytes → Option Int)
+    (addr : Bytes → Option (List Bytes)) (toks : List Tok) : parseReverseProxy dur addr toks ≠ .fuel :=
+  parseReverseProxy_fuel dur addr toks
+
+/-- the argument loops (`RemainingArgs`, the first loop of `NextSegment`) have fuel to spare: more
+    fuel gives the same result, from any cursor position -/
 theorem caddyfile_argument_loops_have_fuel_to_spare (d : Disp) (more : Nat) :
     remainingArgs (d.toks.length + 2) d = remainingArgs (d.toks.length + 2 + more) d ∧
     segArgs (d.toks.length + 2) d = segArgs (d.toks.length + 2 + more) d :=
